@@ -2,6 +2,7 @@ package props
 
 import (
 	"fmt"
+	"runtime"
 	"strings"
 
 	"verifsim/simnet"
@@ -26,6 +27,10 @@ func init() {
 }
 
 func runC19(r *R) {
+	if (r.Mode == "" && r.W.Draw(8) == 0) || r.Mode == "http2" {
+		c19HTTP2(r)
+		return
+	}
 	if (r.Mode == "" && r.W.Draw(5) == 0) || r.Mode == "grpc" {
 		c19GRPC(r)
 		return
@@ -254,5 +259,90 @@ func c19GRPC(r *R) {
 	}
 	if len(res.Samples) != out.Fired {
 		r.Fail("sample-count/grpc", "%d calls were to be made (%d entries x %d passes), %d samples were reported (server statuses %v)", out.Fired, p.Entries, p.Passes, len(res.Samples), p.Codes)
+	}
+}
+
+// ---- http2 gun: a target that speaks HTTP/2 over TLS (any status, failing handshakes) must not stop the run; only the
+// documented fatal condition - a target without HTTP/2 - may ----
+
+func c19HTTP2(r *R) {
+	w, f := r.W, r.F
+	variant := []string{"h2", "h2", "h2-handshake-alerts", "no-h2"}[w.Draw(4)]
+	n := 2 + w.Draw(8)
+	inst := 1 + w.Draw(3)
+	var file strings.Builder
+	statuses := make([]int, n)
+	for i := 0; i < n; i++ {
+		fmt.Fprintf(&file, "/p%d?n=%d t%d\n", i, i, i)
+		statuses[i] = []int{200, 200, 204, 301, 404, 500, 503}[f.Draw(7)]
+	}
+	failEvery := 2 + f.Draw(3)
+	target := "10.0.0.12:8443"
+	r.Sample(map[string]any{"mode": "http2", "variant": variant, "entries": n, "instances": inst, "statuses": fmt.Sprint(statuses), "fail_handshake_every": failEvery})
+	r.NonTrivial()
+	r.Note("http2/" + variant)
+	opts := tlsOpts{H2: variant != "no-h2"}
+	if variant == "h2-handshake-alerts" {
+		opts.FailHandshake = func(k int) bool { return k%failEvery == 0 }
+	}
+	var tgt *httpTarget
+	res := runHTTPPool(r, httpPoolSpec{
+		Ammo:      map[string]interface{}{"type": "uri", "file": "/ammo/ammo.txt", "passes": 1},
+		Gun:       map[string]interface{}{"type": "http2", "target": target},
+		Instances: inst, Tokens: n + 2,
+		Files: map[string][]byte{"/ammo/ammo.txt": []byte(file.String())},
+	}, nil, func(nw *simnet.Net) {
+		tgt = startHTTPTargetTLS(nw, target, true, opts, func(k int, s *seenReq) respScript {
+			i := markerOf(s.URI)
+			st := 200
+			if i >= 0 && i < n {
+				st = statuses[i]
+			}
+			return respScript{Status: st, Body: []byte("ok")}
+		})
+	})
+	// x/net/http2 keeps channels in package-level sync.Pools; a channel made inside this run's bubble must not be
+	// handed to the next run's bubble (the runtime treats that as fatal): two collections empty the pools
+	runtime.GC()
+	runtime.GC()
+	switch res.Sim.Class {
+	case simrt.Crash:
+		r.Fail("CRASH/http2/"+frameSig(res.Sim.Stack), "%s\n%s", res.Sim.Detail, res.Sim.Stack)
+		return
+	case simrt.Hang, simrt.Livelock, simrt.Spin:
+		r.Fail("run-never-ends/http2/"+variant, "%s (run returned=%v, %d samples)", res.Sim.Detail, res.RunDone, len(res.Samples))
+		return
+	}
+	if res.DecodeErr != nil {
+		r.Fail("config-rejected/http2", "the pool configuration was rejected: %v", res.DecodeErr)
+		return
+	}
+	if variant == "no-h2" {
+		// the documented fatal condition: the run may be stopped (with the documented message), nothing else is required
+		if res.RunErr != nil && !strings.Contains(res.RunErr.Error(), "HTTP/2") {
+			r.Fail("run-aborted/http2/no-h2-wrong-cause", "against a target without HTTP/2 Engine.Run returned %q: not the documented cause", res.RunErr)
+		}
+		return
+	}
+	if res.RunErr != nil {
+		r.Fail("run-aborted/http2/"+variant, "the target speaks HTTP/2 (%s), yet Engine.Run returned %q after %d of %d samples", variant, res.RunErr, len(res.Samples), n)
+		return
+	}
+	if len(res.Samples) != n {
+		r.Fail("sample-count/http2/"+variant, "%d requests were to be fired, %d samples were reported", n, len(res.Samples))
+	}
+	if variant == "h2" {
+		seen := tgt.Seen()
+		if len(seen) != n {
+			r.Fail("request-count/http2", "%d requests reached the HTTP/2 target, want %d", len(seen), n)
+		}
+		for _, s := range res.Samples {
+			i := -1
+			fmt.Sscanf(s.Tags, "t%d", &i)
+			if i >= 0 && i < n && s.Proto != statuses[i] {
+				r.Fail("proto-code/http2", "entry %d was answered with %d over HTTP/2, its sample has proto code %d (net %d, err %q)", i, statuses[i], s.Proto, s.Net, clip(s.Err))
+				break
+			}
+		}
 	}
 }
